@@ -1,8 +1,9 @@
 //! props: C09
+//! (unimock's own `impl .. for Unimock` is not `unsafe impl`, so mock support is off here.)
 //! `unsafe trait` must stay unsafe: implementing it requires `unsafe impl`.
 use entrait::*;
 
-#[entrait]
+#[entrait(unimock = false)]
 pub unsafe trait Dangerous {
     fn one(&self, a: u8) -> u8;
 }
